@@ -1,5 +1,6 @@
 import BB.Oracle.Util
 import BB.Model.Ctx
+import BB.Model.CtxBuild
 
 namespace BB.Oracle.CtxFam
 open BB.Ctx BB.Oracle
@@ -24,6 +25,38 @@ def quiesceConfl : Nat → Conflated → Conflated
       match (List.range s.chains.length).find? (fun i => match s.chains[i]? with | some c => c.pendHook > 0 | none => false) with
       | some i => quiesceConfl n (s.step (.runHook i))
       | none => if s.wg == 0 && !s.waiterExited then quiesceConfl n (s.step .waiter) else s
+
+
+def parseIn : String → Option In
+  | "n" => some .nil | "b" => some .never | "0" => some .live | "1" => some .dead | _ => none
+
+def parseNats (s : String) : Option (List Nat) :=
+  if s == "-" then some [] else (s.splitOn ",").mapM String.toNat?
+
+/-- trigger words `p=1,2` (during the primary's Err) and `3=0,1` (during the Err of position 3) -/
+def parseTrig (ws : List String) : Option (List Nat × (Nat → List Nat)) :=
+  ws.foldlM (fun (acc : List Nat × (Nat → List Nat)) w =>
+    match w.splitOn "=" with
+    | ["p", ks] => do let ks ← parseNats ks; some (acc.1 ++ ks, acc.2)
+    | [j, ks] => do
+      let j ← j.toNat?
+      let ks ← parseNats ks
+      some (acc.1, fun i => if i = j then acc.2 i ++ ks else acc.2 i)
+    | _ => none) ([], fun _ => [])
+
+def splitSlash (ws : List String) : List String × List String :=
+  (ws.takeWhile (· ≠ "/"), (ws.dropWhile (· ≠ "/")).drop 1)
+
+/-- script position ↦ index among the registered others, for the later cancel operations (a never-cancellable input is
+    registered but cannot be cancelled by the script) -/
+def liveIdx (l : List In) : List (Option Nat) :=
+  (l.foldl (fun (acc : List (Option Nat) × Nat) t =>
+    if t = .nil then (acc.1 ++ [none], acc.2)
+    else if t = .never then (acc.1 ++ [none], acc.2 + 1)
+    else (acc.1 ++ [some acc.2], acc.2 + 1)) ([], 0)).1
+
+def maskNever (l : List In) (idx : List (Option Nat)) : List (Option Nat) :=
+  (List.range idx.length).map (fun i => if l[i]? = some .never then none else (idx[i]?).join)
 
 inductive Obj
   | none
@@ -54,6 +87,33 @@ def step (x : S) (w : List String) : Option (S × String × List String) :=
       let s'' := quiesceChain 10 s'
       some ({ x with o := .chain s'' }, s!"calls={s''.calls}", if which == "both" then ["simultaneous"] else [])
     | _ => none
+  | "mkcombinet" :: prim :: rest => do
+    -- construction with cancellations landing during the constructor's Err() calls
+    let (otoks, ttoks) := splitSlash rest
+    let prim ← parseIn prim
+    let others ← otoks.mapM parseIn
+    let (tp, tr) ← parseTrig ttoks
+    match combineBuild { prim := prim, others := others } tp tr with
+    | .same x' => some ({ o := .combineConst (x'.prim == .dead) (prim == .nil || prim == .never), primC := x'.prim == .dead },
+        s!"err={b01 (x'.prim == .dead)}", ["build_same"] ++ (if x'.prim == .dead && prim == .live then ["primary_cancelled_during_build"] else []))
+    | .cancelledChild _ => some ({ o := .combineConst true (prim == .nil || prim == .never) }, "err=1", ["build_precheck_saw_cancel"])
+    | .wired x' n pre =>
+      let s0 := quiesceCombine 40 ((Combine.init n).run pre)
+      some ({ o := .combine s0 (liveIdx x'.others) (prim == .nil || prim == .never) }, s!"err={b01 s0.resultC}",
+        (if pre.isEmpty then ["build_wired_clean"] else ["cancel_between_precheck_and_registration"]) ++
+        (if others.any (· == .never) then ["never_other"] else []))
+  | "mkconflatedt" :: rest => do
+    let (itoks, ttoks) := splitSlash rest
+    let inputs ← itoks.mapM parseIn
+    let (_, tr) ← parseTrig ttoks
+    match conflBuild inputs tr with
+    | .allCancelled _ => some ({ o := .conflConst }, "err=1", ["all_pre"])
+    | .wired l idx n pre =>
+      let s0 := quiesceConfl 200 ((Conflated.init n).run pre)
+      some ({ o := .confl s0 (maskNever l idx) }, s!"err={b01 s0.resultC}",
+        (if pre.isEmpty then [] else ["input_cancelled_after_wiring_during_build"]) ++
+        (if inputs.any (· == .never) then ["never_input"] else []) ++
+        (if idx.any (· == none) && !ttoks.isEmpty then ["input_cancelled_before_its_check"] else []))
   | "mkcombine" :: prim :: others =>
     if prim == "1" then some ({ o := .combineConst true, primC := true }, "err=1", ["primary_pre"])
     else if others.any (· == "1") then some ({ o := .combineConst true (prim == "n") }, "err=1", ["other_pre"])
